@@ -1,4 +1,5 @@
 import PlasVerif.Proofs.EnableBalanceTable
+import PlasVerif.Proofs.CatRestoreTable
 import PlasVerif.Proofs.SignatureSpelling
 import PlasVerif.Proofs.Casts
 import PlasVerif.Proofs.Args
@@ -332,5 +333,17 @@ theorem enable_balance_all_paths :
   PlasVerif.Proofs.EnableBalanceTable.all_skeletons_paths_balanced
 
 example : PlasVerif.Generated.ArgPaths.skeletons.length = 7 := by decide
+
+/-- **Character categories.** On every control-flow path (any branch choices, any number of loop iterations) of the
+    regenerated skeleton of `readArgumentAndSource` that ends in a `return`, the loop restoring the per-type character
+    categories (the `url` type reads `# ~ % &` as ordinary characters) has run once the dictionary of saved categories
+    was created: an argument that is absent, or whatever else the reader finds, never leaves the categories switched
+    for what follows (exits by an escaping exception are exempt). -/
+theorem catcodes_restored_all_paths :
+    ∀ p ∈ PlasVerif.Generated.CatPaths.catSkeletons, ∀ n m : Int,
+      PlasVerif.Model.EnableBalance.Exec p.2 n .returned m ∨ PlasVerif.Model.EnableBalance.Exec p.2 n .normal m → m = n :=
+  PlasVerif.Proofs.CatRestoreTable.all_cat_paths_restored
+
+example : PlasVerif.Generated.CatPaths.catSkeletons.length = 1 := by decide
 
 end PlasVerif.Properties.C05
